@@ -484,6 +484,12 @@ def process(template_path, out=None, unit=None, depth=0):
             text2 = norm_vis(text2, log)
             if it.kind == 'struct':
                 text2 = pub_fields(text2, log)
+            if it.kind in ('struct', 'enum'):
+                # T8: a private type becomes `pub` (visibility only)
+                mvis = re.search(r'(?m)^(\s*)(struct|enum)\b', text2)
+                if mvis and not re.search(r'\bpub\s+(struct|enum)\b', text2[:mvis.end()]):
+                    text2 = text2[:mvis.start(2)] + 'pub ' + text2[mvis.start(2):]
+                    log.append('T8 private type -> pub')
             for o in opts:
                 if o.startswith('s/'):
                     _, a, b, _ = o.split('/')
